@@ -443,8 +443,14 @@ def apply(op, w, stats):
             e['mut'] += 1
             if len(w.names_of(w.names[op[1]])) >= 2 or e['views']:
                 e['nontrivial_mut'] += 1
+                bump('probe.inplace_operator_on_object_with_several_names_or_views')
+            if b_model is M:
+                bump('probe.inplace_operator_with_itself_as_operand')
+            if M.m * M.n == 0:
+                bump('probe.inplace_operator_on_empty_matrix')
         else:
             bump('refused')
+            bump('probe.inplace_operator_refused')
         return
     if kind in ('set1', 'set2'):
         e = w.o(op[1])
@@ -476,6 +482,8 @@ def apply(op, w, stats):
         _, _, refused = attempt('size', fr, lambda: MDL.set_size(M, sh[0], sh[1]), exported=bool(e['views']))
         if not refused:
             e['mut'] += 1
+            if e['views']:
+                bump('probe.size_changed_while_exported')
         return
     if kind == 'mvopen':
         e = w.o(op[1])
@@ -493,6 +501,7 @@ def apply(op, w, stats):
         M.v[j * M.m + i] = MDL.conv(v, M.tc)
         e['mut'] += 1
         e['nontrivial_mut'] += 1
+        bump('probe.write_through_memoryview')
         return
     if kind == 'query':
         e = w.o(op[1])
@@ -699,6 +708,16 @@ def apply_inexact(op, w, X, M, bump):
         return
     tc, vals = mr
     tol = 1e-12 if tc == 'z' else 1e-15
+    # on a branch cut the sign of a zero imaginary part decides, and the model does not track signed
+    # zeros: a second model value is computed with the other sign
+    vals_alt = vals
+    if tc == 'z' and not scalar_arg:
+        try:
+            M2 = MDL.MM('z', M.m, M.n, [0j] * (M.m * M.n))
+            M2.v = [complex(complex(v).real, -0.0) if complex(v).imag == 0 else complex(v) for v in M.v]
+            vals_alt = (MDL.powm(M2, lit(op[4]['v'])) if dk == 'pow' else MDL.efun(op[4], M2))[1]
+        except MDL.Refuse:
+            vals_alt = vals
     if scalar_arg:
         want = complex if tc == 'z' else float
         if type(rr) is not want or not (close(rr, vals[0], tol) or (tc == 'z' and a.imag == 0 and close(rr, vals[0].conjugate(), tol))):
@@ -711,13 +730,13 @@ def apply_inexact(op, w, X, M, bump):
             raise Mismatch('not-a-new-object', '%s returned an existing object instead of a new one' % opname, op=opname)
     got = list(rr)
 
-    def agree(a, b, src):
-        if b is None or close(a, b, tol):
+    def agree(a, b, src, b2=None):
+        if b is None or close(a, b, tol) or (b2 is not None and close(a, b2, tol)):
             return True
         # on the branch cut (negative real axis) the sign of a zero imaginary part decides, and the
         # model does not track signed zeros
         return tc == 'z' and complex(src).imag == 0 and close(a, b.conjugate(), tol)
-    if rr.size != size or rr.typecode != tc or len(got) != len(vals) or not all(agree(a, b, c) for a, b, c in zip(got, vals, M.v)):
+    if rr.size != size or rr.typecode != tc or len(got) != len(vals) or not all(agree(a, b, c, b2) for a, b, c, b2 in zip(got, vals, M.v, vals_alt)):
         raise Mismatch('model-differs', '%s: result %s %s %r, model %s %s %r' % (opname, rr.typecode, rr.size, got[:6], tc, size, vals[:6]),
                        op=opname, tc=M.tc)
 
